@@ -55,26 +55,27 @@ def subdir(work, name):
 
 
 def load_edges(path, expected):
-    """edges.ndjson (one JSON string per line, written by CRDTTypes!LogEdge) -> init, adjacency"""
-    ids, out, n = {}, [], 0
+    """edges.ndjson (one JSON string per line, written by CRDTTypes!LogEdge) -> init, adjacency.
+    Lines are sorted first, so the result does not depend on the order in which TLC's workers wrote them."""
+    edges = []
     with open(path) as f:
-        for line in f:
+        for n, line in enumerate(f):
             line = line.strip()
             if not line:
                 continue
             try:
                 d = json.loads(json.loads(line))
-            except ValueError:
+                edges.append((d["src"], json.dumps(d["act"], sort_keys=True), d["dst"]))
+            except (ValueError, KeyError):
                 raise V.Inconclusive("edge log %s is damaged (line %d)" % (path, n + 1))
-            n += 1
-            for k in ("src", "dst"):
-                if d[k] not in ids:
-                    ids[d[k]] = len(ids)
-                    out.append([])
-            s, t = ids[d["src"]], ids[d["dst"]]
-            out[s].append((d["act"], t))
-    if n != expected:
-        raise V.Inconclusive("edge log %s has %d transitions, TLC generated %d" % (path, n, expected))
+    if len(edges) != expected:
+        raise V.Inconclusive("edge log %s has %d transitions, TLC generated %d" % (path, len(edges), expected))
+    edges.sort()
+    names = sorted({e[0] for e in edges} | {e[2] for e in edges})
+    ids = {k: i for i, k in enumerate(names)}
+    out = [[] for _ in names]
+    for s, a, t in edges:
+        out[ids[s]].append((json.loads(a), ids[t]))
     # the initial state is the only one without events (SId starts with the empty event sequence)
     inits = [v for k, v in ids.items() if k.startswith("<<<<>>,")]
     if len(inits) != 1:
@@ -215,7 +216,9 @@ def run(chk):
     def mc_job(name, impl, cfg, bounds, timeout):
         d = subdir(work, "mc-" + name)
         set_consts(os.path.join(d, cfg), *bounds, amts="1, 2" if impl == "gcounter" else None)
-        return V.tlc(d, "MCCRDT", cfg=cfg, workers=6 if quick else 8, timeout=timeout, deadlock=False)
+        # the pinned transcriptions are rejected after a few hundred states: one worker = the same counterexample every time
+        nw = 1 if "pinned" in impl else (6 if quick else 8)
+        return V.tlc(d, "MCCRDT", cfg=cfg, workers=nw, timeout=timeout, deadlock=False)
 
     def gen_job(kind, cfg, bounds, timeout, tag="gen-"):
         d = subdir(work, tag + kind)
